@@ -72,7 +72,7 @@ PROPS = {
             "selection), NormalInverseGaussian, SkewNormal (max/min representation), Pert — every comparison of the implementation is a test of "
             "the reference, the decision functions agree on every truth assignment, every returned term and every derived constructor constant is "
             "identical over the reals (computer algebra on terms extracted from the MIR). Not decided: that the references have the documented "
-            "law (cited), rounding, Beta (Cheng BB/BC), the ziggurat primitives (C06), the single-draw transforms (C13)."),
+            "law (cited), rounding, the ziggurat primitives (C06), the single-draw transforms (C13). Beta (Cheng BB/BC incl. Beta::new) is covered."),
     "C10": ("rules_c10", "other",
             "Decided (structural clauses of the descent): the target is random_range(ZERO..root subtotal); in one iteration of the descent, on every "
             "feasible path, each comparison is target' < subtotal(child) with child in {2i+1, 2i+2} and target' = target minus exactly the "
